@@ -21,7 +21,9 @@ of the k best, threshold 0 / 1 extremes, setters of KDRandomClassWrapper regener
 from __future__ import annotations
 
 import importlib
+import json
 import math
+import os
 import random as pyrandom
 import shutil
 import tempfile
@@ -72,11 +74,12 @@ ASSUMPTIONS = [
     "thresholds other than 0 / 1 keep a distance of 1e-5 from every row confidence (row-wise vs table-wise softmax may differ in the last digit), except exact-tie tables: rows of identical logits (class count 2 / 4 / 8) or two identical logits and -inf otherwise, whose confidence is exactly 1/count resp. 0.5 on both paths, with the threshold at or above that value; only bulk == per-sample is judged there, not which side of the tie is right",
     "the in-place consumer between two encoder reads is KDMixWrapper(mixup_p=1, mixup_alpha=1, seed) over a harness dataset with the same python-int labels (labelled, non-binary layers only); its own outputs are judged by C10 / C11, not here",
     "bulk label storage of the leaf: list, or ndarray / tensor of dtype int64 / int32 / int16 / uint8 (uint8 only without -1 entries)",
+    "cross-interpreter clause: a bounded batch (<= 10 configurations per seeded wrapper family in quick, 12 per shard in thorough, plus a few unseeded ones; >= 3 samples) is recomputed in ONE child interpreter (python -m kdv.h16_child) started with another PYTHONHASHSEED; per-sample results, bulk labels and class count must be equal; a child that crashes / times out / cannot rebuild a configuration means 'not compared' (monitor stays 0 -> inconclusive), never a violation",
     "reconfiguration through KDRandomClassWrapper's public setters is driven below pass-through wrappers and encoders only (wrappers that compute a table at construction are a function of their constructor arguments); encoders are stacked on KDRandomClassWrapper only while its labels are python ints",
     "in-place edits of wrapped labels are observed through leaves whose bulk accessor hands out their own list / ndarray / tensor (as KDRandomClassWrapper.getall_class does); leaves returning copies cannot show them",
     "encoded vectors: tolerance 1e-5 on the sum, 1e-7 on sign and on the arg-max comparison (float32 arithmetic)",
 ]
-MONITORS = ["helper_unlabelled_probes", "interference_reads_checked", "evidence_mix_samples_between_reads", "reconfigured_layers_checked", "exact_tie_tables", "bulk_vs_item_checked", "range_checked", "other_items_checked", "wrapped_labels_checked", "history_queries_checked",
+MONITORS = ["cross_interpreter_labels_compared", "helper_unlabelled_probes", "interference_reads_checked", "evidence_mix_samples_between_reads", "reconfigured_layers_checked", "exact_tie_tables", "bulk_vs_item_checked", "range_checked", "other_items_checked", "wrapped_labels_checked", "history_queries_checked",
             "seed_differential_checked", "encoding_checked", "aliasing_leaf_cases", "topk_bulk_refusals"]
 
 KINDS = list(_MODS)
@@ -252,7 +255,7 @@ def _allowed_second(kind1, layer1, n, dim, unl):
 
 
 def gen_cases(run):
-    total = run.n(3400, 256000)
+    total = run.n(2400, 256000)
     rng = run.rng
     for i in range(total):
         kind = KINDS[i % len(KINDS)] if i < 6 * len(KINDS) else rng.choice(KINDS)
@@ -988,7 +991,144 @@ def _setter(run, L, below, n, dim_in, tmp):
         raise _Abort
 
 
+# ================================================================================================ cross-interpreter clause
+_XPROC = []            # [(case spec, this interpreter's per-layer labels)]
+_XQUOTA = {}           # kind -> recorded
+XPROC_TIMEOUT_S = 600
+
+
+def _seeded_kinds(spec):
+    out = []
+    for L in spec["layers"]:
+        k = L["kind"]
+        if (k in ("semi", "swap") or (k == "randomclass" and L["mode"] != "gatherbug") or (k == "superclass" and L["shuffle"])
+                or (k == "pseudo" and L["form"] == "topk") or (k == "classgroups" and L["shuffle"] and L["seed"] != "none")):
+            out.append(k)
+    return out
+
+
+def _plain(obs):
+    return json.loads(json.dumps([{"per_sample": o["canon"], "bulk": o["bulk"], "classes": o["dim"]} for o in obs], default=core._json_default))
+
+
+def plain_labels(spec):
+    """per layer: per-sample results (exactly comparable form), bulk labels, announced class count - reads only, no
+    verdicts (also run by the child interpreter, see h16_child)"""
+    run = core.Run("C16", "quick", 0, LEVEL)
+    tmp = _Tmp()
+    try:
+        return _plain(_stack(run, spec, 0, False, tmp))
+    finally:
+        tmp.close()
+
+
+def _xproc_record(run, spec, A):
+    """keep a bounded batch with every seeded family (and a few unseeded ones) for the child interpreter"""
+    if spec["leaf"]["n"] < 3:
+        return
+    seeded = _seeded_kinds(spec)
+    kinds = seeded or [L["kind"] for L in spec["layers"]]
+    cap = (10 if run.quick() else 12) if seeded else 2
+    if all(_XQUOTA.get(("s" if seeded else "u", k), 0) >= cap for k in kinds):
+        return
+    for k in kinds:
+        _XQUOTA[("s" if seeded else "u", k)] = _XQUOTA.get(("s" if seeded else "u", k), 0) + 1
+    case = {key: v for key, v in spec.items() if key != "reconfig"}
+    _XPROC.append((json.loads(json.dumps(case)), _plain(A)))
+
+
+def finalize(run):
+    """'the mapping is a function of the constructor arguments and seed' - also in another interpreter instance (other
+    string-hash salt, other process-global RNG states; ranks / restarted runs are other interpreters): the recorded
+    configurations are recomputed in ONE child interpreter and compared"""
+    try:
+        _xproc_compare(run, _XPROC)
+    finally:
+        del _XPROC[:]
+        _XQUOTA.clear()
+        _drop_child()
+
+
+_CHILD = []            # the child interpreter, started while the cases run (quick tier: its start-up overlaps the main loop)
+
+
+def _spawn_child(run):
+    import subprocess
+    import sys
+    hs = 1 + (run.seed * 7919 + 1616 + (run.shard[0] if run.shard else 0)) % 4000000000
+    if str(hs) == os.environ.get("PYTHONHASHSEED"):
+        hs += 1
+    env = dict(os.environ, PYTHONHASHSEED=str(hs), PYTHONPATH=os.pathsep.join([str(core.REPO), str(core.VERIF)]), OMP_NUM_THREADS="1",
+               MKL_NUM_THREADS="1", PYTHONDONTWRITEBYTECODE="1")
+    return subprocess.Popen([sys.executable, "-m", "kdv.h16_child"], stdin=subprocess.PIPE, stdout=subprocess.PIPE, stderr=subprocess.STDOUT,
+                            text=True, cwd=str(core.VERIF), env=env)
+
+
+def setup(run):
+    del _XPROC[:]
+    _XQUOTA.clear()
+    if run.quick() and not _CHILD:
+        try:
+            import atexit
+            atexit.register(_drop_child)  # a replay of an ordinary case never asks the child anything
+            _CHILD.append(_spawn_child(run))
+        except Exception as e:
+            run.notes["cross_interpreter_child"] = f"could not be started: {type(e).__name__}: {e}"[:300]
+
+
+def _drop_child():
+    while _CHILD:
+        p = _CHILD.pop()
+        try:
+            p.kill()
+            p.communicate(timeout=10)
+        except Exception:
+            pass
+
+
+def _xproc_compare(run, batch):
+    if not batch:
+        _drop_child()
+        return
+    res = None
+    p = None
+    try:
+        p = _CHILD.pop() if _CHILD else _spawn_child(run)
+        out, _ = p.communicate(input=json.dumps({"specs": [c for c, _ in batch]}), timeout=XPROC_TIMEOUT_S)
+        line = next((ln for ln in out.splitlines() if ln.startswith("KDV16RESULT ")), None)
+        res = json.loads(line[len("KDV16RESULT "):]) if line else None
+        if res is None:
+            run.notes["cross_interpreter_child"] = f"no result line (rc={p.returncode}): {out[-300:]}"
+    except Exception as e:  # timeout / crash of the child: nothing was compared (the deciding monitor stays 0)
+        run.notes["cross_interpreter_child"] = f"{type(e).__name__}: {e}"[:300]
+        try:
+            if p is not None:
+                p.kill()
+                p.communicate(timeout=10)
+        except Exception:
+            pass
+    if not res or "results" not in res:
+        run.notes.setdefault("cross_interpreter_child", f"child interpreter gave no results (not compared): {res}")
+        return
+    for (case, mine), r in zip(batch, res["results"]):
+        if "layers" not in r:
+            run.count("cross_interpreter_child_errors")
+            continue
+        run.count("cross_interpreter_labels_compared")
+        for k in _seeded_kinds(case):
+            run.count(f"evidence_cross_interpreter_{k}")
+        for L, a, b in zip(case["layers"], mine, r["layers"]):
+            if a != b:
+                diff = next((f for f in ("classes", "per_sample", "bulk") if a[f] != b[f]))
+                run.violation(f"{L['kind']}:not-reproducible-across-interpreters",
+                              f"{_describe(L)} over leaf labels {_s(case['leaf']['classes'])}: {diff} in this interpreter {_s(a[diff])}, in a fresh interpreter "
+                              f"(PYTHONHASHSEED={res.get('hashseed')}) {_s(b[diff])} — equal arguments and seed", {"xproc": case})
+                break
+
+
 def run_case(run, spec):
+    if "xproc" in spec:  # replay of a cross-interpreter witness: this interpreter's labels are recomputed, then compared with a child's
+        return _xproc_compare(run, [(spec["xproc"], plain_labels(spec["xproc"]))])
     leaf_spec = spec["leaf"]
     kinds = [L["kind"] for L in spec["layers"]]
     top = spec["layers"][-1]
@@ -1007,6 +1147,8 @@ def run_case(run, spec):
                               f"{_describe(L)}: two constructions with equal arguments and seed under different global RNG states differ: "
                               f"per-sample {_s(a['canon'])} vs {_s(b['canon'])}; bulk {_s(a['bulk'])} vs {_s(b['bulk'])}; classes {a['dim']} vs {b['dim']}")
                 break
+        else:
+            _xproc_record(run, spec, A)
         if len(spec["layers"]) > 1:
             run.count("stacked_cases")
         if leaf_spec["n"] >= 3:
